@@ -1,16 +1,27 @@
 """C44 - option updates are transactional and typed; config save/load uses the same option set.
 
-Decided (structural clauses, nothing executed):
-  R44.1 (E5 + path facts) in ``OptManager.update_known`` every exception that can be raised once the first ``_Option.set`` may have
-        happened (anything raised inside the ``with self.rollback(...)`` block: TypeError from the type check in ``_Option.set``,
-        OptionsError from listeners notified through ``changed.send``) either reaches a handler of ``rollback`` that restores
-        ``_options`` - or cannot happen because the very same check (same function, same value, same typespec, same iteration
-        set) was passed for every value before the block was entered (pre-validation idiom).
-  R44.2 ``rollback``: the deep copy is taken before the body runs; on OptionsError: ``errored.send`` -> restore of ``_options`` ->
-        ``changed.send(updated)`` -> re-raise when asked; ``_Option.set`` type-checks before it assigns.
+Decided (nothing of the repository is executed; ``OptManager`` and its option class are *interpreted* from their AST with pyint):
+  R44.1 typed + transactional on a type error.
+        (a) static, exhaustive in the exception types (E5): the escape set of the block guarded by the rollback context manager in
+            ``OptManager.update_known`` (found by role: the ``with self.<@contextmanager method>(..)`` reached from update_known, also
+            through extracted ``self._helper()`` methods; calls of option objects / signal receivers resolved by role).  Every escaping
+            exception must either be caught by a handler around the ``yield`` of that context manager whose restoring effect is then
+            *observed* by interpretation (a listener raising exactly that exception: every option back at its previous value), or stem
+            from the type checker ``typecheck.check_option_type`` and be excluded by pre-validation - decided on the interpreted runs:
+            every checker call made after the first write to a live option object repeats a call (same value, same typespec) that
+            passed before that first write.
+        (b) by interpretation over one representative option per supported type (bool, int, str, Optional[str], int | None,
+            Sequence[str]): ``update_known`` with one value of the wrong type at every position (unknown key in front) raises
+            TypeError and leaves every option at its previous value; nobody observes a partially applied state last.
+  R44.2 transactional on a rejecting listener, by interpretation of update_known / update / attribute assignment:
+        the rejection (OptionsError) reaches the caller; every option is back at its previous value (also options that an earlier
+        listener assigned in a nested update, also values replaced in place - the snapshot is deep and complete); the listeners' last
+        observation is the restored state; an accepted update applies every value, notifies with exactly the names of the assigned
+        options and hands back the unknown keys; the option object's setter refuses a value of the wrong type without storing it.
   R44.3 ``serialize`` writes exactly the options with ``has_changed`` (or all with ``defaults``), drops keys that are not options,
-        ``save`` forwards ``defaults``; ``load`` feeds ``update_defer`` with the parsed mapping.  (serialize / load: decided on the key sets
-        observed when both functions are interpreted from their AST - same runs as R44.4 - not on their source text.)
+        ``save`` forwards ``defaults`` (``save`` itself is interpreted on a model path: existing file / no file); ``load`` feeds
+        ``update_defer`` with the parsed mapping.  (serialize / load: decided on the key sets observed when both functions are
+        interpreted from their AST - same runs as R44.4 - not on their source text.)
   R44.4 (E3, pyint) the config path is value-faithful - clause "saving options to a config file and loading that file into fresh options
         reproduces every non-default value".  ``serialize`` and ``load`` are interpreted from their AST (nothing executed) over one
         representative option per (supported type x value class): bool on/off, int 0/negative, str ""/YAML-special words/quotes+newline/
@@ -25,231 +36,948 @@ Decided (structural clauses, nothing executed):
         A value class dropped or coerced on either side (None, falsy, empty list, unknown key) is a non-default value the next start
         silently replaces by the default.
 NOT decided: YAML text round-trip of a value (ruamel trusted); listeners raising anything but OptionsError (contract of
-``subscribe``/``changed``); that update_defer applies what it is handed (R44.1/R44.2 cover its transactionality).
+``subscribe``/``changed``); that update_defer applies what it is handed (R44.1/R44.2 cover its transactionality); whether the ``errored``
+signal is sent (not part of the property).
 """
 
 from __future__ import annotations
 
 import ast
+import collections
+import collections.abc
+import copy as _copy
+import functools
+import itertools
+import operator
+import pprint
+import textwrap
+import types as _types
+import typing
 
 from ..core import AnalysisError
 from ..core import norm
-from ..model import walk_in_order
-from ..paths import GenericSpec
-from ..paths import traces_of
+from ..model import decorators
+from ..model import last_attr
+from ..pyint import ClassRef
+from ..pyint import DictRec
+from ..pyint import Func
+from ..pyint import Gen
+from ..pyint import Interp
+from ..pyint import NullLog
+from ..pyint import Raised
+from ..pyint import Rec
+from ..pyint import _Break
+from ..pyint import _Continue
+from ..pyint import _Return
 from ..selftest import Mutant
 from ._helpers_H import Config
 from ._helpers_H import MayRaise
-from ..pyint import DictRec
-from ..pyint import Interp
-from ..pyint import Raised
 
 PROP = "C44"
 REG = {
     "strength": "partial",
-    "technique": "exception-escape sets vs. restoring handlers of the rollback context manager (E5) + pre-validation idiom + ordering path facts "
-    "+ AST interpretation of serialize/load over representative options of every supported type",
-    "claim": "every explicit raise / modelled raiser inside update_known's rollback block is either restored by rollback or excluded by an identical "
-    "type check passed for every value before the first mutation; rollback copies before and restores/re-notifies in order; serialize/load agree "
-    "on the option set and hand every representative value (None, falsy, empty, YAML-special strings, deferred keys) on type-identically.",
-    "note": "Listener contract: receivers of `changed` raise OptionsError only. check_option_type is assumed deterministic in its arguments.",
+    "technique": "AST interpretation of OptManager / its option class (update_known, rollback context manager, subscribers, attribute protocol) in concrete "
+    "worlds with recording listeners + exception-escape sets vs. handlers of the rollback context manager (E5) + AST interpretation of "
+    "serialize/load/save over representative options of every supported type",
+    "claim": "every exception type that can escape the block guarded by update_known's rollback context is either observed to be rolled back or stems "
+    "from the type checker and repeats a check passed before the first mutation; on a wrong-typed value (every position, every supported type) and on "
+    "a rejecting listener (also after a nested update by an earlier listener) every option is back at its previous value, listeners last observe that "
+    "state and the caller sees the rejection; accepted updates notify with the assigned names; serialize/load/save agree on the option set and hand "
+    "every representative value (None, falsy, empty, YAML-special strings, deferred keys) on type-identically.",
+    "note": "Listener contract: receivers of `changed` raise OptionsError only. check_option_type is assumed deterministic in its arguments. "
+    "signals.SyncSignal is modelled (receivers called in connection order, exceptions propagate); copy.deepcopy/copy over option objects follows their __deepcopy__.",
 }
 
 OM = "mitmproxy/optmanager.py"
 TC = "mitmproxy/utils/typecheck.py"
+SIG = "mitmproxy/utils/signals.py"
+CHECKER = "check_option_type"
+_META = ("_cls", "_bases", "_impl", "_name", "_items")
 
 
-def _with_rollback(fn):
-    ws = [n for n in walk_in_order(fn) if isinstance(n, ast.With) and len(n.items) == 1 and isinstance(n.items[0].context_expr, ast.Call)
-          and norm(n.items[0].context_expr.func) == "self.rollback"]
-    return ws
+# =====================================================================================================================================
+# interpreter: pyint + what the options machinery needs
 
 
-def _restoring_handlers(ctx, mr):
-    """(handler, names, restores?) of the try around the yield of OptManager.rollback + the statement taking the copy."""
-    rb = ctx.func(OM, "OptManager.rollback")
-    tries = [s for s in rb.body if isinstance(s, ast.Try) and any(isinstance(x, ast.Expr) and isinstance(x.value, ast.Yield) for x in s.body)]
-    ctx.require(len(tries) == 1 and len(tries[0].body) == 1, "OptManager.rollback: try/yield changed shape")
-    t = tries[0]
-    copies = [s for s in rb.body[: rb.body.index(t)] if isinstance(s, ast.Assign) and norm(s.value) == "copy.deepcopy(self._options)"]
+def _abs(f):
+    f._pyint_accepts_abstract = True
+    return f
+
+
+class _AttrDict(dict):
+    """``obj.__dict__`` of an abstract record: reads see the record's attributes, writes go to the record."""
+
+    def __init__(self, rec, it):
+        super().__init__({k: v for k, v in rec.__dict__.items() if k not in _META})
+        self._rec, self._it = rec, it
+
+    def __setitem__(self, k, v):
+        super().__setitem__(k, v)
+        self._it.raw_set(self._rec, k, v)
+
+    def __delitem__(self, k):
+        super().__delitem__(k)
+        self._rec.__dict__.pop(k, None)
+
+    def update(self, *a, **kw):
+        for k, v in dict(*a, **kw).items():
+            self[k] = v
+
+    def pop(self, k, *d):
+        if k in self:
+            v = self[k]
+            del self[k]
+            return v
+        if d:
+            return d[0]
+        raise KeyError(k)
+
+    def setdefault(self, k, d=None):
+        if k not in self:
+            self[k] = d
+        return self[k]
+
+
+class _Signal:
+    """model of mitmproxy.utils.signals.SyncSignal: receivers are called in connection order with the arguments of send();
+    an exception of a receiver propagates to the sender (the remaining receivers are not called)."""
+
+    _pyint_accepts_abstract = True
+
+    def __init__(self, it):
+        self.it = it
+        self.receivers: list = []
+        self.sent: list = []
+
+    def connect(self, receiver):
+        self.receivers.append(receiver)
+
+    def disconnect(self, receiver):
+        self.receivers = [r for r in self.receivers if r is not receiver]
+
+    def send(self, *args, **kwargs):
+        self.sent.append((args, dict(kwargs)))
+        for r in list(self.receivers):
+            self.it.apply(r, list(args), dict(kwargs), self.it.d)
+
+    def __deepcopy__(self, memo):
+        return self
+
+
+class _CopyModel:
+    """model of the stdlib ``copy`` module over abstract records (``__deepcopy__`` / ``__copy__`` of repository classes are interpreted)."""
+
+    _pyint_accepts_abstract = True
+
+    def __init__(self, it):
+        self.it = it
+
+    def _special(self, x, name):
+        it = self.it
+        if x._impl is None:
+            return None
+        m = it.model.method(*x._impl, name)
+        if m is not None:
+            return m
+        for _, cc in it.model.mro(*x._impl):  # `__copy__ = __deepcopy__` at class level
+            for st in cc.body:
+                if isinstance(st, ast.Assign) and any(isinstance(t, ast.Name) and t.id == name for t in st.targets) and isinstance(st.value, ast.Name):
+                    return it.model.method(*x._impl, st.value.id)
+        return None
+
+    def deepcopy(self, x, memo=None):
+        it = self.it
+        if isinstance(x, Rec):
+            m = self._special(x, "__deepcopy__")
+            if m is not None:
+                return it.apply(Func(m[0], m[1], bound=x), [memo if memo is not None else {}], {}, it.d)
+            new = _copy.copy(x)
+            for k, v in list(x.__dict__.items()):
+                if k not in _META:
+                    object.__setattr__(new, k, self.deepcopy(v, memo))
+            if isinstance(x, DictRec):
+                object.__setattr__(new, "_items", self.deepcopy(x._items, memo))
+            return new
+        if isinstance(x, dict):
+            return {self.deepcopy(k, memo): self.deepcopy(v, memo) for k, v in x.items()}
+        if isinstance(x, list):
+            return [self.deepcopy(v, memo) for v in x]
+        if isinstance(x, tuple):
+            return tuple(self.deepcopy(v, memo) for v in x)
+        if isinstance(x, (set, frozenset)):
+            return type(x)(self.deepcopy(v, memo) for v in x)
+        if isinstance(x, (Func, ClassRef, _Signal)) or callable(x):
+            return x
+        try:
+            return _copy.deepcopy(x)
+        except Exception:  # typing objects and friends: immutable
+            return x
+
+    def copy(self, x):
+        it = self.it
+        if isinstance(x, Rec):
+            m = self._special(x, "__copy__")
+            if m is not None:
+                n_params = len(m[1].args.posonlyargs + m[1].args.args)
+                return it.apply(Func(m[0], m[1], bound=x), [None] * max(0, n_params - 1), {}, it.d)
+        return _copy.copy(x)
+
+
+class OptInterp(Interp):
+    """pyint + ``with`` over ``@contextmanager`` generators (the body runs at the yield, exceptions of the body are thrown in there),
+    over records with ``__enter__/__exit__`` and over native context managers; ``obj.__dict__``; class-level ``__getattr__`` /
+    ``__setattr__`` / ``__contains__`` / ``__eq__`` of repository classes; ``super().__setattr__``; overrides that also apply to
+    ``from module import name``; a log of record writes, instantiations and calls."""
+
+    def __init__(self, model, trusted_modules=None, **kw):
+        tm = {"typing": typing, "collections": collections, "textwrap": textwrap, "pprint": pprint, "logging": NullLog(), "warnings": NullLog(), "copy": _CopyModel(self),
+              "itertools": itertools, "functools": functools, "operator": operator}
+        tm.update(trusted_modules or {})
+        super().__init__(model, trusted_modules=tm, max_depth=kw.pop("max_depth", 80), max_steps=kw.pop("max_steps", 3000000), **kw)
+        self.d = 0
+        self._cm: list = []
+        self.events: list = []  # ('write', rec, attr, value) | ('new', ClassRef, rec) | ('call', Func, args, kwargs)
+        self.called: set = set()
+        self.extra_builtins: dict = {}  # rule-supplied models of builtins pyint does not offer (open)
+
+    # -- bookkeeping
+    def raw_set(self, rec, attr, value):
+        object.__setattr__(rec, attr, value)
+        self.writes.append((rec._name, "attr", attr, value))
+        self.events.append(("write", rec, attr, value))
+
+    def call_func(self, f, args, kwargs, depth):
+        prev, self.d = self.d, depth
+        try:
+            q = getattr(f.node, "_qual", None)
+            if q is not None:
+                self.called.add(f"{f.mod.rel}::{q}")
+                self.events.append(("call", f, list(args), dict(kwargs)))
+            return super().call_func(f, args, kwargs, depth)
+        finally:
+            self.d = prev
+
+    def instantiate(self, c, args, kwargs, depth, where):
+        # (the record is logged before __init__ runs so that writes of the constructor are attributed to a *new* object)
+        n0 = len(self.events)
+        self.events.append(("new", c, None))
+        rec = super().instantiate(c, args, kwargs, depth, where)
+        self.events[n0] = ("new", c, rec)
+        return rec
+
+    def native_call(self, f, args, kwargs, where):
+        if f is typing.cast and len(args) == 2:
+            return args[1]
+        return super().native_call(f, args, kwargs, where)
+
+    # -- names
+    def name(self, ident, env, mod, depth, node):
+        if ident not in env and ident in mod.imports and (mod.rel, ident) not in self.overrides and "." in mod.imports[ident]:
+            mpart, npart = mod.imports[ident].rsplit(".", 1)
+            m = self.model.module_by_dotted(mpart)
+            if m is not None and (m.rel, npart) in self.overrides:
+                return self.overrides[(m.rel, npart)]
+        try:
+            return super().name(ident, env, mod, depth, node)
+        except AnalysisError:
+            if ident in self.extra_builtins:
+                return self.extra_builtins[ident]
+            if ident == "object":
+                return object
+            raise
+
+    # -- with
+    def stmt(self, st, env, mod, depth):
+        if isinstance(st, ast.With):
+            simple = len(st.items) == 1 and st.items[0].optional_vars is None and isinstance(st.items[0].context_expr, ast.Call) \
+                and last_attr(st.items[0].context_expr.func) in ("suppress", "nullcontext")
+            if not simple:
+                self.tick()
+                return self.with_(st, 0, env, mod, depth)
+        return super().stmt(st, env, mod, depth)
+
+    def with_(self, st, i, env, mod, depth):
+        if i == len(st.items):
+            return self.block(st.body, env, mod, depth)
+        item = st.items[i]
+        cm = self.ev(item.context_expr, env, mod, depth)
+
+        def body(value):
+            if item.optional_vars is not None:
+                self.assign(item.optional_vars, value, env, mod, depth)
+            self.with_(st, i + 1, env, mod, depth)
+
+        if isinstance(cm, Gen):
+            if not any(d.split(".")[-1] == "contextmanager" for d in decorators(cm.node)):
+                raise AnalysisError(f"pyint: with over a plain generator ({cm.node.name} is not a @contextmanager)")
+            fr = {"state": "pre", "gd": len(self._gen_targets), "body": body, "ctl": None}
+            self._cm.append(fr)
+            try:
+                try:
+                    self.block(cm.node.body, dict(cm.env), cm.f.mod, cm.depth)
+                except _Return:
+                    pass
+            finally:
+                self._cm.pop()
+            if fr["state"] == "pre":
+                raise Raised("RuntimeError", "generator didn't yield")
+            if fr["ctl"] is not None:
+                raise fr["ctl"]
+            return None
+        if isinstance(cm, Rec) and cm._impl is not None and self.model.method(*cm._impl, "__enter__") and self.model.method(*cm._impl, "__exit__"):
+            v = self.apply(self.getattr(cm, "__enter__", st, depth), [], {}, depth)
+            ex = self.getattr(cm, "__exit__", st, depth)
+            try:
+                body(v)
+            except Raised as r:
+                if not self.truthy(self.apply(ex, [("$exc", r.name), f"<exc:{r.name}>", None], {}, depth)):
+                    raise
+                return None
+            except (_Return, _Break, _Continue):
+                self.apply(ex, [None, None, None], {}, depth)
+                raise
+            self.apply(ex, [None, None, None], {}, depth)
+            return None
+        if not isinstance(cm, (Rec, Func, ClassRef, tuple)) and hasattr(cm, "__enter__") and hasattr(cm, "__exit__"):
+            v = cm.__enter__()
+            try:
+                body(v)
+            except Raised as r:
+                if not cm.__exit__(Exception, r, None):
+                    raise
+                return None
+            except (_Return, _Break, _Continue):
+                cm.__exit__(None, None, None)
+                raise
+            cm.__exit__(None, None, None)
+            return None
+        raise AnalysisError(f"pyint: with-statement not modelled: {norm(st)[:80]}")
+
+    def do_yield(self, value):
+        if self._cm and len(self._gen_targets) == self._cm[-1]["gd"]:
+            fr = self._cm[-1]
+            if fr["state"] == "pre":
+                fr["state"] = "body"
+                try:
+                    fr["body"](value)
+                except (_Return, _Break, _Continue) as c:
+                    fr["ctl"] = c
+                finally:
+                    fr["state"] = "post"
+                return None
+            if fr["state"] == "post":
+                raise Raised("RuntimeError", "generator didn't stop")
+        return super().do_yield(value)
+
+    # -- attributes
+    def _class_has(self, rec, attr) -> bool:
+        for _, c in self.model.mro(*rec._impl):
+            for st in c.body:
+                if isinstance(st, (ast.FunctionDef, ast.AsyncFunctionDef)) and st.name == attr:
+                    return True
+                if isinstance(st, ast.Assign) and any(isinstance(t, ast.Name) and t.id == attr for t in st.targets):
+                    return True
+                if isinstance(st, ast.AnnAssign) and isinstance(st.target, ast.Name) and st.target.id == attr and st.value is not None:
+                    return True
+        return False
+
+    def getattr(self, base, attr, node, depth):
+        if isinstance(base, Rec) and base._impl is not None:
+            if attr == "__dict__":
+                return _AttrDict(base, self)
+            if attr == "__class__":
+                return ClassRef(self.model.module(base._impl[0]), self.model.cls(*base._impl))
+            if attr not in base.__dict__ and not isinstance(base, DictRec) and not self._class_has(base, attr):
+                ga = self.model.method(*base._impl, "__getattr__")
+                if ga is not None:
+                    return self.apply(Func(ga[0], ga[1], bound=base), [attr], {}, depth)
+                raise Raised("AttributeError", attr)
+        if isinstance(base, tuple) and base and base[0] == "$super" and attr in ("__setattr__", "__init__", "__delattr__"):
+            try:
+                return super().getattr(base, attr, node, depth)
+            except AnalysisError:
+                me = base[1]
+                if attr == "__setattr__":
+                    return _abs(lambda a, v: self.raw_set(me, a, v))
+                if attr == "__delattr__":
+                    return _abs(lambda a: me.__dict__.pop(a, None))
+                return _abs(lambda *a, **k: None)
+        return super().getattr(base, attr, node, depth)
+
+    def assign(self, target, value, env, mod, depth):
+        if isinstance(target, ast.Attribute):
+            base = self.ev(target.value, env, mod, depth)
+            if isinstance(base, Rec) and base._impl is not None and self.find_property(base, target.attr, "setter") is None:
+                sa = self.model.method(*base._impl, "__setattr__")
+                if sa is not None:
+                    self.apply(Func(sa[0], sa[1], bound=base), [target.attr, value], {}, depth)
+                else:
+                    self.raw_set(base, target.attr, value)
+                return None
+            return super().assign(ast.Attribute(value=ast.Name(id="$o", ctx=ast.Load()), attr=target.attr, ctx=ast.Store()), value, {"$o": base}, mod, depth)
+        return super().assign(target, value, env, mod, depth)
+
+    def cmp(self, op, a, b, node):
+        if isinstance(op, (ast.In, ast.NotIn)) and isinstance(b, Rec) and not isinstance(b, DictRec) and b._impl is not None:
+            m = self.model.method(*b._impl, "__contains__")
+            if m is not None:
+                r = self.truthy(self.apply(Func(m[0], m[1], bound=b), [a], {}, self.d))
+                return r if isinstance(op, ast.In) else not r
+        if isinstance(op, (ast.Eq, ast.NotEq)):
+            for x, y in ((a, b), (b, a)):
+                if isinstance(x, Rec) and x._impl is not None:
+                    m = self.model.method(*x._impl, "__eq__")
+                    if m is not None:
+                        r = self.truthy(self.apply(Func(m[0], m[1], bound=x), [y], {}, self.d))
+                        return r if isinstance(op, ast.Eq) else not r
+        return super().cmp(op, a, b, node)
+
+
+# =====================================================================================================================================
+# worlds: an interpreted OptManager with one option per supported type, recording listeners
+
+# (name, typespec, default, value before the transaction, value of an accepted update, value of the wrong type)
+_NOCHANGE = object()
+_TX_OPTIONS = [
+    ("flag", bool, False, _NOCHANGE, True, "yes"),
+    ("count", int, 0, _NOCHANGE, 5, "5"),
+    ("label", str, "dflt", "p", "x", 5),
+    ("ostr", typing.Optional[str], None, "q", None, 7),
+    ("oint", int | None, None, _NOCHANGE, 3, "3"),
+    ("seqopt", collections.abc.Sequence[str], [], ["k"], ["a", "b"], [1]),
+    ("aux", int, 0, _NOCHANGE, _NOCHANGE, _NOCHANGE),
+]
+_NAMES = [o[0] for o in _TX_OPTIONS]
+_TYPE = {o[0]: o[1] for o in _TX_OPTIONS}
+_PREV = {o[0]: o[3] for o in _TX_OPTIONS if o[3] is not _NOCHANGE}
+_GOOD = {o[0]: o[4] for o in _TX_OPTIONS if o[4] is not _NOCHANGE}
+_BAD = {o[0]: o[5] for o in _TX_OPTIONS if o[5] is not _NOCHANGE}
+_REJECTED_LABEL = "rejected!"
+
+
+def _same(a, b):
+    """type-identical equality (False != 0, [] != (), None only equals None)."""
+    if type(a) is not type(b):
+        return False
+    if isinstance(a, (list, tuple)):
+        return len(a) == len(b) and all(_same(x, y) for x, y in zip(a, b))
+    if isinstance(a, dict):
+        return a.keys() == b.keys() and all(_same(a[k], b[k]) for k in a)
+    return a == b
+
+
+def _tname(t) -> str:
+    return getattr(t, "__name__", None) if isinstance(t, type) else str(t).replace("typing.", "").replace("collections.abc.", "")
+
+
+class _Listener:
+    """a native listener (subscriber callback / receiver of a signal): records what it is told and what it then observes."""
+
+    _pyint_accepts_abstract = True
+
+    def __init__(self, world, label, react=None, dead=False):
+        self.world, self.label, self.react, self.dead = world, label, react, dead
+        self.seen: list = []  # (updated names | None, {option: value})
+
+    def __call__(self, *args, **kwargs):
+        updated = kwargs.get("updated")
+        if updated is None:
+            updated = next((a for a in args if isinstance(a, (set, frozenset))), None)
+        self.seen.append((set(updated) if updated is not None else None, self.world.values(), dict(kwargs)))
+        self.world.order.append(self.label)
+        if self.react is not None:
+            self.react(set(updated) if updated is not None else set())
+
+
+class _Refused(Exception):
+    """an update with values of the declared types is refused while a world is prepared"""
+
+
+class _World:
+    """``OptManager()`` interpreted, the representative options registered through ``add_option``, listeners registered through
+    ``subscribe`` / ``changed.connect`` - only the public interface is used, values are read through attribute access."""
+
+    def __init__(self, ctx, prev=True):
+        self.ctx = ctx
+        m = ctx.model
+        self.it = it = OptInterp(m)
+        self.signals: list = []
+        self.order: list = []
+
+        def mk_signal(*a, **k):
+            s = _Signal(it)
+            self.signals.append(s)
+            return s
+
+        it.overrides[(SIG, "SyncSignal")] = _abs(mk_signal)
+        it.overrides[(SIG, "make_weak_ref")] = _abs(lambda f: _abs(lambda: None) if getattr(f, "dead", False) else _abs(lambda: f))
+        it.overrides[(TC, "UnionType")] = _types.UnionType
+        self.cref = ClassRef(m.module(OM), m.cls(OM, "OptManager"))
+        self.om = self.run("OptManager()", lambda: it.instantiate(self.cref, [], {}, 0, "OptManager()"))
+        n0 = len(it.events)
+        for name, typespec, default, *_ in _TX_OPTIONS:
+            self.run(f"add_option({name})", lambda: it.method(self.om, "add_option", name, typespec, _copy.deepcopy(default), f"help for {name}"))
+        # the option class by role: what add_option instantiates (once per option)
+        made = [(ev[1], ev[2]) for ev in it.events[n0:] if ev[0] == "new" and isinstance(ev[2], Rec)]
+        classes = {c._key() for c, _ in made}
+        if len(classes) != 1 or len(made) != len(_TX_OPTIONS):
+            raise AnalysisError(f"R44: add_option creates {len(made)} objects of {sorted(classes)} for {len(_TX_OPTIONS)} options (one option object each expected)")
+        self.opt_cls = made[0][0]
+        if prev:
+            out, _ = self.call("update", **_copy.deepcopy(_PREV))
+            if out[0] != "ok":
+                raise _Refused(f"update({', '.join(f'{k}={v!r}' for k, v in _PREV.items())}) on options of type {', '.join(_tname(_TYPE[k]) for k in _PREV)} (defaults "
+                               f"{', '.join(repr(o[2]) for o in _TX_OPTIONS if o[0] in _PREV)}) raises {out[1]}")
+
+    def run(self, what, thunk):
+        try:
+            return thunk()
+        except Raised as r:
+            raise AnalysisError(f"R44: {what} raises {r.name} in the interpreted world ({r.msg})")
+
+    def signal(self, attr):
+        s = self.run(f"opts.{attr}", lambda: self.it.getattr(self.om, attr, None, 0))
+        if not isinstance(s, _Signal):
+            raise AnalysisError(f"R44: OptManager.{attr} is not a signals.SyncSignal any more")
+        return s
+
+    def values(self) -> dict:
+        out = {}
+        for n in _NAMES:
+            try:
+                out[n] = _copy.deepcopy(self.it.getattr(self.om, n, None, 0))
+            except Raised as r:
+                out[n] = f"<{r.name}>"
+        return out
+
+    def subscribe(self, listener, names):
+        self.run("subscribe", lambda: self.it.method(self.om, "subscribe", listener, list(names)))
+        return listener
+
+    def live_options(self) -> set:
+        """ids of the option objects alive now (created so far)"""
+        return {id(ev[2]) for ev in self.it.events if ev[0] == "new" and isinstance(ev[2], Rec) and ev[1] == self.opt_cls}
+
+    def call(self, how, **kw):
+        """-> (('ok', result) | ('raise', name), events of the call)"""
+        it = self.it
+        start = len(it.events)
+        try:
+            if how == "setattr":
+                (k, v), = kw.items()
+                it.assign(ast.Attribute(value=ast.Name(id="$o", ctx=ast.Load()), attr=k, ctx=ast.Store()), v, {"$o": self.om}, self.cref.mod, 0)
+                out = ("ok", None)
+            else:
+                out = ("ok", it.method(self.om, how, **kw))
+        except Raised as r:
+            out = ("raise", r.name)
+        return out, it.events[start:]
+
+
+def _diff(got: dict, want: dict) -> str:
+    return ", ".join(f"{k} = {got.get(k)!r} (previous value {want[k]!r})" for k in want if not _same(got.get(k), want[k]))
+
+
+# =====================================================================================================================================
+# static part: the guarded block, its escape set, the handlers around the yield
+
+
+def _own(fn):
+    todo = list(ast.iter_child_nodes(fn))
+    while todo:
+        n = todo.pop(0)
+        if isinstance(n, (ast.FunctionDef, ast.AsyncFunctionDef, ast.ClassDef, ast.Lambda)):
+            continue
+        yield n
+        todo[0:0] = list(ast.iter_child_nodes(n))
+
+
+def _class_of(fn):
+    p = getattr(fn, "_parent", None)
+    return p if isinstance(p, ast.ClassDef) else None
+
+
+def _guarded_blocks(ctx, fn):
+    """[(holder function, With node, context-manager function)]: ``with self.<m>(..)`` statements with ``<m>`` a @contextmanager method,
+    in ``fn`` or in ``self._helper()`` methods it (transitively) delegates to."""
+    m = ctx.model
+    cls = _class_of(fn)
+    ctx.require(cls is not None, "update_known is not a method any more")
+    out, seen, todo = [], set(), [fn]
+    while todo:
+        f = todo.pop(0)
+        if id(f) in seen:
+            continue
+        seen.add(id(f))
+        for n in _own(f):
+            if isinstance(n, ast.With):
+                for item in n.items:
+                    ce = item.context_expr
+                    if isinstance(ce, ast.Call) and isinstance(ce.func, ast.Attribute) and isinstance(ce.func.value, ast.Name) and ce.func.value.id == "self":
+                        r = m.method(OM, cls._qual, ce.func.attr)
+                        if r is not None and any(d.split(".")[-1] == "contextmanager" for d in decorators(r[1])):
+                            out.append((f, n, r[1]))
+            if isinstance(n, ast.Call) and isinstance(n.func, ast.Attribute) and isinstance(n.func.value, ast.Name) and n.func.value.id == "self" and len(seen) < 12:
+                r = m.method(OM, cls._qual, n.func.attr)
+                if r is not None and r[0].rel == OM and not any(d.split(".")[-1] == "contextmanager" for d in decorators(r[1])):
+                    todo.append(r[1])
+    return out
+
+
+def _handlers_around_yield(ctx, mr, cm_fn):
+    """[(handler, canonical names)] of the try statements whose *body* holds the yield of the context manager, innermost first."""
+    ys = [n for n in _own(cm_fn) if isinstance(n, (ast.Yield, ast.YieldFrom))]
+    ctx.require(len(ys) == 1 and isinstance(ys[0], ast.Yield), f"{cm_fn._qual}: a context manager with {len(ys)} yields is not modelled")
     mod = mr.model.module(OM)
-    hs = []
-    for h in t.handlers:
-        names = ["BaseException"] if h.type is None else [mr.h.canon(mod, e) for e in (h.type.elts if isinstance(h.type, ast.Tuple) else [h.type])]
-        restores = False
-        for st in h.body:  # top level of the handler: unconditional
-            if isinstance(st, ast.Assign) and norm(st.targets[0]) in ("self.__dict__['_options']", "self._options") and copies \
-                    and norm(st.value) == norm(copies[0].targets[0]):
-                restores = True
-        hs.append((h, names, restores))
-    return rb, t, copies, hs
-
-
-def _prevalidated(ctx, fn, w, opt_set):
-    """Is every (k, v) the block is going to apply checked by the same function with the same value / typespec before the block?
-    -> (ok, description).  Accepted idiom: a loop over the same iterable as the mutation loop, calling the checker that _Option.set
-    calls, with the loop's value and ``self._options[<key>].typespec``; nothing in between rebinding the iterable or the options."""
-    chk = [n for n in walk_in_order(opt_set) if isinstance(n, ast.Call) and n.func is not None and norm(n.func).endswith("check_option_type")]
-    if len(chk) != 1 or [norm(a) for a in chk[0].args[1:]] != ["value", "self.typespec"]:
-        return False, "_Option.set no longer calls check_option_type(name, value, self.typespec)"
-    checker = norm(chk[0].func)
-    mut = [n for n in w.body if isinstance(n, ast.For)]
-    if len(mut) != 1:
-        return False, "mutation loop changed shape"
-    mloop = mut[0]
-    sets = [n for n in walk_in_order(mloop) if isinstance(n, ast.Call) and isinstance(n.func, ast.Attribute) and n.func.attr == "set"]
-    if len(sets) != 1 or not isinstance(mloop.target, ast.Tuple):
-        return False, "mutation loop changed shape"
-    mk, mv = (norm(x) for x in mloop.target.elts)
-    if norm(sets[0].func.value) != f"self._options[{mk}]" or [norm(a) for a in sets[0].args] != [mv]:
-        return False, "mutation loop changed shape"
-    # the block containing the with statement
-    parent = w._parent
-    blk = next(b for b in (getattr(parent, "body", []), getattr(parent, "orelse", [])) if any(s is w for s in b))
-    before = blk[: next(i for i, s in enumerate(blk) if s is w)]
-    for i, s in enumerate(before):
-        if not (isinstance(s, ast.For) and norm(s.iter) == norm(mloop.iter) and isinstance(s.target, ast.Tuple) and len(s.target.elts) == 2):
-            continue
-        k, v = (norm(x) for x in s.target.elts)
-        calls = [n for st in s.body for n in walk_in_order(st) if isinstance(n, ast.Call) and norm(n.func) == checker]
-        top = [st for st in s.body if isinstance(st, ast.Expr) and isinstance(st.value, ast.Call) and norm(st.value.func) == checker]
-        if len(calls) != 1 or len(top) != 1 or len(calls[0].args) != 3:
-            continue
-        if norm(calls[0].args[1]) != v or norm(calls[0].args[2]) != f"self._options[{k}].typespec":
-            continue
-        # nothing between the validation loop and the block may rebind the iterable / options, and the loop must not swallow the failure
-        tail = before[i + 1:]
-        it_name = norm(mloop.iter).split(".")[0].split("(")[0]
-        if any(isinstance(x, (ast.Assign, ast.AugAssign, ast.Delete, ast.Call)) for st in tail for x in walk_in_order(st)):
-            return False, "statements between the validation loop and the rollback block may change what is applied"
-        if any(isinstance(x, (ast.Try, ast.Continue, ast.Break)) for st in s.body for x in walk_in_order(st)):
-            return False, "the validation loop can skip or swallow a failing check"
-        return True, f"for {k}, {v} in {norm(s.iter)}: {checker}({k}, {v}, self._options[{k}].typespec) before the block"
-    return False, "no validation loop over the applied values precedes the rollback block"
+    out = []
+    child, p = ys[0], getattr(ys[0], "_parent", None)
+    while p is not None and child is not cm_fn:
+        if isinstance(p, ast.Try) and any(child is s for s in p.body):
+            for h in p.handlers:
+                out.append((h, ["BaseException"] if h.type is None else mr.handler_names(mod, h.type)))
+        child, p = p, getattr(p, "_parent", None)
+    return out
 
 
 def check(ctx):
-    ctx.rule("R44.1", "exceptions raised after the first _Option.set are restored by rollback or excluded by identical pre-validation")
-    ctx.rule("R44.2", "rollback: copy before body; errored.send -> restore -> changed.send -> optional re-raise; _Option.set checks before assigning")
-    ctx.rule("R44.3", "serialize writes changed (or all) options and drops unknown keys; load feeds update_defer")
-    fn = ctx.func(OM, "OptManager.update_known")
-    opt_set = ctx.func(OM, "_Option.set")
-    ctx.func(TC, "check_option_type")
-    ws = _with_rollback(fn)
-    ctx.require(len(ws) == 1, "update_known: expected exactly one `with self.rollback(...)` block")
-    w = ws[0]
-
-    def dynamic(fr, call):
-        where = f"{fr.mod.rel}::{fr.fn._qual}"
-        f = call.func
-        if isinstance(f, ast.Attribute) and f.attr == "set" and norm(f.value).startswith("self._options["):
-            return [(OM, "_Option.set")]
-        if isinstance(f, ast.Attribute) and f.attr == "send" and norm(f.value) in ("self.changed", "self.errored"):
-            if norm(f.value) == "self.changed":
-                # receivers: _notify_subscribers (connected in __init__) + external listeners (contract: OptionsError)
-                return [(OM, "OptManager._notify_subscribers")]
-            return ("raises", (), None)
-        if where == f"{OM}::OptManager._notify_subscribers" and norm(f) == "callback":
-            return ("raises", ("OptionsError",), None)
-        return None
-
-    ctx.assume("listeners notified through OptManager.changed raise OptionsError only (documented contract of subscribe/changed)")
-    ctx.assume("typecheck.check_option_type is deterministic in (value, typespec)")
-    init = ctx.func(OM, "OptManager.__init__")
-    ctx.require(any(norm(n) == "self.changed.connect(self._notify_subscribers)" for n in walk_in_order(init) if isinstance(n, ast.Call)),
-                "OptManager.__init__ no longer connects _notify_subscribers to changed")
-    mr = MayRaise(ctx, Config(dynamic=dynamic, bounded_recursion={f"{TC}::check_option_type": "depth follows the declared typespec, not the value"}))
-    kw = fn.args.kwarg.arg if fn.args.kwarg else None
-    ctx.require(kw is not None, "update_known no longer takes **kwargs")
-    env = {kw: "V"}
-    body_esc = mr.region(OM, "OptManager.update_known", w.body, env)
-    key = mr.key_of_region(OM, "OptManager.update_known", env)
-    ctx.require({"TypeError", "OptionsError"} <= {e.exc for e in body_esc}, f"modelled raisers of the rollback block vanished: {sorted({e.exc for e in body_esc})}")
-    for f in mr.functions:
-        ctx.functions.add(f)
-    ctx.paths += mr.sites
-    rb, t, copies, hs = _restoring_handlers(ctx, mr)
-    # escapes that stem from the validated call inside _Option.set
-    chk_stmt = [s for s in opt_set.body if isinstance(s, ast.Expr) and isinstance(s.value, ast.Call) and norm(s.value.func).endswith("check_option_type")]
-    ctx.require(len(chk_stmt) == 1, "_Option.set: type check changed shape")
-    mr2 = MayRaise(ctx, Config(dynamic=dynamic, bounded_recursion={f"{TC}::check_option_type": "depth follows the declared typespec, not the value"}))
-    check_esc = mr2.region(OM, "_Option.set", chk_stmt, {"value": "V"})
-    set_rest = mr2.region(OM, "_Option.set", [s for s in opt_set.body if s not in chk_stmt], {"value": "V"})
-    pre_ok, pre_desc = _prevalidated(ctx, fn, w, opt_set)
-    uncovered = {}
-    for e in sorted(body_esc, key=lambda e: (e.exc, e.rel, e.qual, e.text)):
-        hit = next(((h, r) for h, names, r in hs if any(mr.h.isa(e.exc, n) for n in names)), None)
-        if hit is not None and hit[1]:
-            continue
-        from_check = any((x.exc, x.rel, x.qual, x.text) == (e.exc, e.rel, e.qual, e.text) for x in check_esc) and \
-            not any((x.exc, x.rel, x.qual, x.text) == (e.exc, e.rel, e.qual, e.text) for x in set_rest)
-        if from_check and pre_ok:
-            continue
-        why = "no handler of rollback catches it" if hit is None else "the rollback handler that catches it does not restore _options"
-        if from_check:
-            why += f"; not excluded by pre-validation either ({pre_desc})"
-        uncovered.setdefault(e.exc, (e, why))
-    for typ, (e, why) in sorted(uncovered.items()):
-        ctx.fail("R44.1", (OM, "OptManager.update_known", w), f"{typ} inside the rollback block is not rolled back",
-                 f"{typ} raised at {e.site()} ({e.why}): {why}; options assigned earlier in the same update stay applied and nobody is notified; "
-                 "call chain: " + " -> ".join(mr.chain(key, e)), chain=mr.chain(key, e))
-    if not uncovered:
-        ctx.ok("R44.1", f"escape set of the rollback block {sorted({e.exc for e in body_esc})}: restored by rollback "
-               f"{[n for _, ns, r in hs if r for n in ns]}" + (f"; TypeError of _Option.set excluded by pre-validation: {pre_desc}" if pre_ok else ""))
-    ctx.sample({"rule": "R44.1", "escape_set": sorted({e.exc for e in body_esc}), "restoring_handlers": [ns for _, ns, r in hs if r],
-                "prevalidated": pre_ok, "idiom": pre_desc})
-    ctx.expect_instances("R44.1", 1)
-
-    # ---- R44.2
-    ctx.check(len(copies) == 1, "R44.2", (OM, "OptManager.rollback", rb), "old = copy.deepcopy(self._options) before the body",
-              "rollback no longer snapshots the options before yielding", desc="deep copy taken before the yield")
-    h_opt = [(h, r) for h, names, r in hs if "OptionsError" in names]
-    ctx.require(len(h_opt) == 1, "rollback: OptionsError handler vanished")
-    h = h_opt[0][0]
-    seq = []
-    for st in h.body:
-        if isinstance(st, ast.Expr) and isinstance(st.value, ast.Call):
-            seq.append("call:" + norm(st.value.func) + "(" + ",".join(f"{k.arg}={norm(k.value)}" for k in st.value.keywords) + ")")
-        elif isinstance(st, ast.Assign):
-            seq.append("assign:" + norm(st.targets[0]))
-        elif isinstance(st, ast.If) and any(isinstance(x, ast.Raise) for x in st.body):
-            seq.append("reraise-if:" + norm(st.test))
-        elif isinstance(st, ast.Raise):
-            seq.append("reraise")
-    want_prefix = ["call:self.errored.send(exc=%s)" % (h.name or "e")]
-    restore_i = next((i for i, s in enumerate(seq) if s in ("assign:self.__dict__['_options']", "assign:self._options")), -1)
-    notify_i = next((i for i, s in enumerate(seq) if s == "call:self.changed.send(updated=updated)"), -1)
-    err_i = next((i for i, s in enumerate(seq) if s == want_prefix[0]), -1)
-    rr_i = next((i for i, s in enumerate(seq) if s.startswith("reraise")), -1)
-    ok = 0 <= err_i < restore_i < notify_i and (rr_i == -1 or rr_i > notify_i) and h_opt[0][1]
-    ctx.check(ok, "R44.2", (OM, "OptManager.rollback", h), "errored.send -> restore -> changed.send(updated) -> re-raise",
-              f"handler sequence is {seq}: listeners would not observe the restored state (or the state is not restored)", desc=f"handler order {seq}")
-    rr_ok = rr_i != -1 and (seq[rr_i] == "reraise" or seq[rr_i] == "reraise-if:reraise")
-    wcall = w.items[0].context_expr
-    passes = any(k.arg == "reraise" and isinstance(k.value, ast.Constant) and k.value.value is True for k in wcall.keywords)
-    ctx.check(rr_ok and passes, "R44.2", (OM, "OptManager.update_known", w), "update_known asks rollback to re-raise", "a rejected update is swallowed silently",
-              desc="rollback(updated, reraise=True) re-raises after restoring")
-    first_assign = next((i for i, s in enumerate(opt_set.body) if isinstance(s, ast.Assign) and norm(s.targets[0]) == "self.value"), -1)
-    first_check = next((i for i, s in enumerate(opt_set.body) if s in chk_stmt), -1)
-    ctx.check(0 <= first_check < first_assign, "R44.2", (OM, "_Option.set", opt_set), "_Option.set checks the type before assigning",
-              "a value of the wrong type is stored before (or without) being checked", desc="check_option_type precedes self.value = value")
-    ctx.expect_instances("R44.2", 4)
-
-    # ---- R44.3 (serialize / load instances come from the interpretation shared with R44.4, see _config_path)
-    ser, save = ctx.func(OM, "serialize"), ctx.func(OM, "save")
-    params = [a.arg for a in ser.args.posonlyargs + ser.args.args]
-    ctx.require("defaults" in params and any(a.arg == "defaults" for a in save.args.args + save.args.kwonlyargs), "serialize/save no longer take `defaults`")
-    pos = params.index("defaults")
-    calls = [n for n in walk_in_order(save) if isinstance(n, ast.Call) and norm(n.func) == "serialize"]
-    ok = bool(calls) and all((len(c.args) > pos and norm(c.args[pos]) == "defaults") or any(k.arg == "defaults" and norm(k.value) == "defaults" for k in c.keywords) for c in calls)
-    ctx.check(ok, "R44.3", (OM, "save", save), "save forwards `defaults` to serialize", "save ignores its defaults flag", desc="save -> serialize(..., defaults)")
-
-    # ---- R44.4
+    ctx.rule("R44.1", "a value of the wrong type is refused before anything is assigned; every exception that can escape the rollback block is restored by rollback or excluded by identical pre-validation")
+    ctx.rule("R44.2", "a rejecting listener: the caller sees the rejection, every option is back at its previous value (deep, complete snapshot), listeners last observe the restored state; "
+             "accepted updates notify with the assigned names; the option setter checks before it stores")
+    ctx.rule("R44.3", "serialize writes changed (or all) options and drops unknown keys; save forwards defaults; load feeds update_defer")
     ctx.rule("R44.4", "serialize hands the dumper the current value of every changed option and load hands update_defer the parsed mapping unchanged "
              "(all supported types incl. None / falsy / empty values, unknown keys deferred)")
+    ctx.assume("listeners notified through OptManager.changed raise OptionsError only (documented contract of subscribe/changed)")
+    ctx.assume("typecheck.check_option_type is deterministic in (value, typespec)")
+    ctx.trust("signals.SyncSignal calls its receivers in connection order and lets their exceptions propagate; copy.deepcopy follows __deepcopy__")
+    fn = ctx.func(OM, "OptManager.update_known")
+    checker = ctx.func(TC, CHECKER)
+    called: set = set()
+    tx = ctx.guard(_transactions, ctx, fn, checker, called)
+    if tx is not None:
+        ctx.guard(_escape_coverage, ctx, fn, checker, tx, called)
+    for f in sorted(called):
+        ctx.functions.add(f)
+    ctx.expect_instances("R44.1", 8)
+    ctx.expect_instances("R44.2", 12)
+
+    # ---- R44.3 / R44.4 (serialize / load / save are interpreted, see _config_path)
     ctx.guard(_config_path, ctx)
     ctx.expect_instances("R44.3", 4)
     ctx.expect_instances("R44.4", 4)
+
+
+# =====================================================================================================================================
+# R44.1 (b) / R44.2: transactions in interpreted worlds
+
+
+def _checker_calls(events, checker):
+    """calls of the type checker among the events: [(index, value, typespec)] (2nd and 3rd parameter)"""
+    out = []
+    params = [a.arg for a in checker.args.posonlyargs + checker.args.args]
+    if len(params) < 3:
+        raise AnalysisError(f"R44.1: {CHECKER} no longer takes (name, value, typespec)")
+    for i, ev in enumerate(events):
+        if ev[0] == "call" and ev[1].node is checker:
+            bound = dict(zip(params, ev[2]))
+            bound.update(ev[3])
+            if params[1] not in bound or params[2] not in bound:
+                raise AnalysisError(f"R44.1: a call of {CHECKER} without value / typespec")
+            out.append((i, bound[params[1]], bound[params[2]]))
+    # (the checker's recursive calls for Optional / Sequence are included: a repeated outer call repeats them as well)
+    return out
+
+
+def _transactions(ctx, fn, checker, called):
+    try:
+        return _transactions_(ctx, fn, checker, called)
+    except _Refused as e:
+        ctx.fail("R44.1", (OM, "OptManager.update_known", fn), "values of the declared types are accepted", f"{e} - a value of the declared type cannot be assigned (the type check compares against something else than the typespec)")
+        return None
+
+
+def _transactions_(ctx, fn, checker, called):
+    where = (OM, "OptManager.update_known", fn)
+    res = {"restores": {}, "prevalidated": None, "prevalidated_why": "", "setter": None}
+
+    def world(**kw):
+        w = _World(ctx, **kw)
+        return w
+
+    def done(w):
+        called.update(w.it.called)
+        ctx.cells += len(_NAMES)
+
+    # ---- T2: an accepted update (all supported types, unknown keys in front and behind)
+    w = world()
+    sub = w.subscribe(_Listener(w, "subscriber(all)"), _NAMES)
+    w.subscribe(_Listener(w, "dead", dead=True), ["label"])
+    direct = _Listener(w, "changed-receiver")
+    w.signal("changed").connect(direct)
+    before = w.values()
+    live = w.live_options()
+    good = _copy.deepcopy(_GOOD)
+    kwargs = {"zz_unknown": 1, **good, "zz_none": None}
+    out, events = w.call("update_known", **kwargs)
+    after = dict(before)
+    after.update(_GOOD)
+    problems = []
+    if out[0] != "ok":
+        problems.append(f"update_known({', '.join(kwargs)}) with values of the declared types raises {out[1]}")
+    else:
+        if not _same(w.values(), after):
+            problems.append("not every value is applied: " + ", ".join(f"{k} = {w.values()[k]!r} instead of {after[k]!r}" for k in after if not _same(w.values()[k], after[k])))
+        if not (isinstance(out[1], dict) and _same(out[1], {"zz_unknown": 1, "zz_none": None})):
+            problems.append(f"the unknown keys are not handed back unchanged: {out[1]!r}")
+        for l in (sub, direct):
+            if not l.seen:
+                problems.append(f"{l.label} is not notified")
+            elif l.seen[-1][0] != set(_GOOD) or not _same(l.seen[-1][1], after):
+                problems.append(f"{l.label} is last told {sorted(l.seen[-1][0] or [])} and observes {_diff(l.seen[-1][1], after) or 'the new values'} (expected names: {sorted(_GOOD)})")
+    ctx.check(not problems, "R44.2", where, "an accepted update applies every value and notifies with the assigned names",
+              "; ".join(problems), desc=f"accepted update of {len(_GOOD)} options (one per supported type) + 2 unknown keys: applied, listeners told {sorted(_GOOD)}, unknown keys returned")
+    # pre-validation, observed: every checker call after the first write to a live option repeats an earlier one
+    first_write = next((i for i, ev in enumerate(events) if ev[0] == "write" and id(ev[1]) in live), None)
+    checks = _checker_calls(events, checker)
+    if first_write is None:
+        if out[0] == "ok":
+            raise AnalysisError("R44.1: an accepted update writes to no existing option object (the way options are assigned is not modelled)")
+        res["prevalidated"], res["prevalidated_why"] = False, f"the accepted update raises {out[1]}"
+    else:
+        early = [(v, t) for i, v, t in checks if i < first_write]
+        late = [(v, t) for i, v, t in checks if i > first_write]
+        fresh = [(v, t) for v, t in late if not any(_same(v, v2) and t == t2 for v2, t2 in early)]
+        res["prevalidated"] = not fresh
+        res["prevalidated_why"] = (f"{len(late)} checker calls after the first assignment, each repeating one of the {len(early)} calls passed before it" if not fresh else
+                                   "checked only after the first assignment: " + ", ".join(f"{v!r} against {_tname(t)}" for v, t in fresh[:4]))
+    # the setter of the option object by role: the method of the option class that is handed the new value
+    setter = None
+    for ev in events:
+        if ev[0] == "call" and isinstance(ev[1].bound, Rec) and id(ev[1].bound) in live and any(isinstance(a, int) and not isinstance(a, bool) and a == good["count"] for a in list(ev[2]) + list(ev[3].values())):
+            setter = ev[1]
+            break
+    done(w)
+
+    # ---- T1: a value of the wrong type at every position (one world as long as it stays untouched)
+    shared: dict = {"w": None}
+
+    def untouched_world():
+        w = shared["w"]
+        if w is None or not _same(w.values(), w.pristine):
+            w = shared["w"] = world()
+            w.sub = w.subscribe(_Listener(w, "subscriber(all)"), _NAMES)
+            w.direct = _Listener(w, "changed-receiver")
+            w.signal("changed").connect(w.direct)
+            w.pristine = w.values()
+        del w.sub.seen[:], w.direct.seen[:]
+        return w
+
+    for pos, name in enumerate(_BAD):
+        for how in ("update_known",) + (("setattr",) if pos == 1 else ()):
+            problems = []
+            placements = ("setattr",) if how == "setattr" else ("in place", "last") if pos < len(_BAD) - 1 else ("last",)
+            for place in placements:
+                w = untouched_world()
+                before = w.values()
+                good = _copy.deepcopy(_GOOD)
+                bad = _copy.deepcopy(_BAD[name])
+                if place == "setattr":
+                    kwargs = {name: bad}
+                elif place == "in place":
+                    kwargs = {"zz_unknown": 1, **good, name: bad}
+                else:  # after every other (valid) value: everything else has been assigned when a late check refuses it
+                    kwargs = {"zz_unknown": 1, **{k: v for k, v in good.items() if k != name}, name: bad}
+                out, events = w.call(how, **kwargs)
+                n_before = len(problems)
+                if out[0] == "ok":
+                    problems.append(f"{name} ({_tname(_TYPE[name])}) accepts {_BAD[name]!r}: the option holds {w.values()[name]!r}")
+                elif out[1] != "TypeError":
+                    problems.append(f"raises {out[1]} instead of TypeError")
+                if out[0] != "ok" and not _same(w.values(), before):
+                    problems.append("options assigned earlier in the same update stay applied: " + _diff(w.values(), before))
+                for l in (w.sub, w.direct):
+                    if out[0] != "ok" and l.seen and not _same(l.seen[-1][1], before):
+                        problems.append(f"{l.label} last observes a partially applied state: " + _diff(l.seen[-1][1], before))
+                problems[n_before:] = [f"[{name} {place}: position {list(kwargs).index(name)} of {len(kwargs) - 1}] {x}" for x in problems[n_before:]]
+                done(w)
+            what = f"{how}: {_BAD[name]!r} for {name} ({_tname(_TYPE[name])}; {' / '.join(placements)})"
+            ctx.check(not problems, "R44.1", where, f"a wrong-typed value for {name} is refused and nothing is assigned" + (" (attribute assignment)" if how == "setattr" else ""),
+                      f"{what}: " + "; ".join(problems), desc=f"{what} -> TypeError, every option at its previous value")
+
+    # ---- T5: the setter refuses a wrong-typed value without storing it (the live option object: the one an accepted update hands its value to)
+    if setter is not None:
+        qual = setter.node._qual
+        bad_stored = []
+        w5 = untouched_world()
+        for name in _BAD:
+            out, events = w5.call("update_known", **{name: _copy.deepcopy(_GOOD[name])})
+            rec = next((ev[1].bound for ev in events if ev[0] == "call" and ev[1].node is setter.node and isinstance(ev[1].bound, Rec)), None)
+            if out[0] != "ok" or rec is None:
+                raise AnalysisError(f"R44.2: update_known({name}) does not reach {qual} in the interpreted world ({out})")
+            before5 = w5.values()
+            try:
+                w5.it.apply(Func(setter.mod, setter.node, bound=rec), [_copy.deepcopy(_BAD[name])], {}, 0)
+                bad_stored.append(f"{name} ({_tname(_TYPE[name])}) accepts {_BAD[name]!r}")
+            except Raised as r:
+                if r.name != "TypeError":
+                    bad_stored.append(f"{name}: raises {r.name} instead of TypeError")
+                elif not _same(w5.values(), before5):
+                    bad_stored.append(f"{name} ({_tname(_TYPE[name])}) holds {w5.values()[name]!r} after the refused assignment")
+        done(w5)
+        ctx.check(not bad_stored, "R44.2", (OM, qual, setter.node), "the option setter refuses a value of the wrong type without storing it",
+                  "; ".join(bad_stored) + " - an option holds a value that is not of its declared type", desc=f"{qual}: refuses a wrong-typed value for each of {len(_BAD)} types, nothing stored")
+        res["setter"] = qual
+    else:
+        ctx.ok("R44.2", "options are assigned by update_known itself (no setter method of the option class is handed the value)")
+    res["world"] = shared["w"]
+
+    # ---- T3: a rejecting listener (through every entry point); the exception types rollback handles are tried on demand (restores())
+    def reject_world(exc, nested=False):
+        w = world()
+        sub = w.subscribe(_Listener(w, "subscriber(all)"), _NAMES)
+        if nested:
+            def follow(updated, w=w):
+                v = w.values()
+                if "count" in updated and isinstance(v["count"], int) and v["count"] > 0 and v["aux"] != v["count"]:
+                    out, _ = w.call("update", aux=v["count"])
+                    if out[0] != "ok":
+                        raise Raised(out[1], "nested update")
+            w.subscribe(_Listener(w, "subscriber(count -> aux)", react=follow), ["count"])
+
+        def reject(updated, w=w):
+            if w.values()["label"] == _REJECTED_LABEL:
+                raise Raised(exc, "listener rejects the value")
+        w.subscribe(_Listener(w, "rejecting subscriber(label)", react=reject), ["label"])
+        direct = _Listener(w, "changed-receiver")
+        w.signal("changed").connect(direct)
+        return w, sub, direct
+
+    def rejected(how, exc="OptionsError", nested=False):
+        w, sub, direct = reject_world(exc, nested)
+        before = w.values()
+        kwargs = {"label": _REJECTED_LABEL} if how == "setattr" else {"count": 7, "label": _REJECTED_LABEL, "seqopt": ["z"]}
+        out, _ = w.call(how, **kwargs)
+        done(w)
+        return w, sub, direct, before, out, kwargs
+
+    def restores(exc):
+        if exc not in res["restores"]:
+            w, sub, direct, before, out, kwargs = rejected("update_known", exc)
+            res["restores"][exc] = (_same(w.values(), before), _diff(w.values(), before))
+        return res["restores"][exc]
+
+    res["restores_fn"] = restores
+    for how in ("update_known", "update", "setattr"):
+        w, sub, direct, before, out, kwargs = rejected(how)
+        label = f"{how}({', '.join(kwargs)}) rejected by a subscriber"
+        ctx.check(out == ("raise", "OptionsError"), "R44.2", where, f"a rejected update reaches the caller ({how})",
+                  f"{label}: " + ("returns normally - the rejection is swallowed silently" if out[0] == "ok" else f"raises {out[1]} instead of OptionsError"),
+                  desc=f"{label}: OptionsError reaches the caller")
+        if how == "update_known":
+            res["restores"]["OptionsError"] = (_same(w.values(), before), _diff(w.values(), before))
+        ctx.check(_same(w.values(), before), "R44.2", where, f"a rejected update leaves every option at its previous value ({how})",
+                  f"{label}: not restored: {_diff(w.values(), before)} (the snapshot is taken too late, is shallow, or is not reinstated)",
+                  desc=f"{label}: every option back at its previous value (values replaced in place included)")
+        last = sub.seen[-1] if sub.seen else None
+        saw_attempt = any(not _same(s[1], before) for s in sub.seen)
+        ok = last is not None and _same(last[1], before) and (not saw_attempt or set(kwargs) <= (last[0] or set()))
+        ctx.check(ok, "R44.2", where, f"listeners last observe the restored state ({how})",
+                  f"{label}: " + ("the subscriber is never notified" if last is None else f"the subscriber that saw the attempted values is last told {sorted(last[0] or [])} and then observes {_diff(last[1], before) or 'the previous values'}")
+                  + " - listeners keep acting on values the options no longer hold", desc=f"{label}: the subscriber that saw the attempted values is re-notified after the restore and observes the previous values")
+
+    # ---- T4: an earlier listener reacted with a nested (accepted) update of another option
+    w, sub, direct, before, out, kwargs = rejected("update", nested=True)
+    moved = any(not _same(s[1]["aux"], before["aux"]) for s in sub.seen)
+    ctx.require(moved, "R44.2: the nested update of the reacting listener never became visible (world outgrown)")
+    last = sub.seen[-1]
+    ok = out == ("raise", "OptionsError") and _same(w.values(), before) and _same(last[1], before)
+    ctx.check(ok, "R44.2", where, "a rejected update also undoes what earlier listeners assigned in reaction to it",
+              f"update(count, label) rejected after an earlier subscriber reacted with update(aux=count): outcome {out}, not restored: {_diff(w.values(), before) or '-'}; last observed: {_diff(last[1], before) or 'previous values'}"
+              " - an option nobody asked to change keeps a value derived from the rejected input", desc="rejected update after a nested update by an earlier listener: every option (also the one assigned by that listener) back at its previous value")
+    return res
+
+
+# =====================================================================================================================================
+# R44.1 (a): escape set of the guarded block vs. handlers of the context manager
+
+
+def _escape_coverage(ctx, fn, checker, tx, called):
+    blocks = _guarded_blocks(ctx, fn)
+    ctx.require(len(blocks) == 1, f"update_known: expected exactly one block guarded by a @contextmanager method of OptManager, found {len(blocks)}")
+    holder, w, cm_fn = blocks[0]
+    ctx.functions.add(f"{OM}::{cm_fn._qual}")
+    ctx.functions.add(f"{OM}::{holder._qual}")
+    # roles from an interpreted instance: signals with their in-class receivers, the option class
+    base = tx["world"]
+    sig_attr = {k: v for k, v in base.om.__dict__.items() if isinstance(v, _Signal)}
+    changed = base.signal("changed")
+    opt_qual = base.opt_cls.node._qual
+    opt_methods = {st.name for st in base.opt_cls.node.body if isinstance(st, (ast.FunctionDef, ast.AsyncFunctionDef))}
+    receivers = {(r.mod.rel, r.node._qual) for s in sig_attr.values() for r in s.receivers if isinstance(r, Func)}
+    ctx.require(any(isinstance(r, Func) for r in changed.receivers), "OptManager.__init__ no longer connects a subscriber-notifying method to `changed`")
+
+    def dynamic(fr, call):
+        f = call.func
+        if isinstance(f, ast.Attribute):
+            recv = f.value
+            if f.attr == "send" and isinstance(recv, ast.Attribute) and isinstance(recv.value, ast.Name) and recv.value.id == "self" and recv.attr in sig_attr:
+                sig = sig_attr[recv.attr]
+                targets = [(r.mod.rel, r.node._qual) for r in sig.receivers if isinstance(r, Func)]
+                if targets:
+                    return targets
+                return ("raises", ("OptionsError",) if sig is changed else (), None)
+            is_self = isinstance(recv, ast.Name) and (recv.id in ("self", "cls") or recv.id in fr.mod.imports)
+            is_super = isinstance(recv, ast.Call) and isinstance(recv.func, ast.Name) and recv.func.id == "super"
+            if fr.mod.rel == OM and f.attr in opt_methods and not f.attr.startswith("__") and not is_self and not is_super and not isinstance(recv, ast.Constant):
+                # a method of the option class on a receiver that is not the manager itself: an option object of the table
+                if f.attr in ("keys", "items", "values", "get", "update", "pop", "copy"):
+                    return None
+                return [(OM, f"{opt_qual}.{f.attr}")]
+        if (fr.mod.rel, fr.fn._qual) in receivers and isinstance(f, ast.Name) and fr._is_local(f.id):
+            # the listeners a receiver of `changed` calls (contract: OptionsError)
+            return ("raises", ("OptionsError",), None)
+        return None
+
+    bounded = {f"{TC}::{CHECKER}": "depth follows the declared typespec, not the value"}
+    mr = MayRaise(ctx, Config(dynamic=dynamic, bounded_recursion=bounded))
+    kw = fn.args.kwarg.arg if fn.args.kwarg else None
+    ctx.require(kw is not None, "update_known no longer takes **kwargs")
+    env = {kw: "V"} if holder is fn else {}
+    body_esc = mr.region(OM, holder._qual, w.body, env)
+    key = mr.key_of_region(OM, holder._qual, env)
+    types = sorted({e.exc for e in body_esc})
+    ctx.require({"TypeError", "OptionsError"} <= set(types), f"modelled raisers of the rollback block vanished: {types}")
+    for f in mr.functions:
+        ctx.functions.add(f)
+    ctx.paths += mr.sites
+    hs = _handlers_around_yield(ctx, mr, cm_fn)
+    where = (OM, holder._qual, w)
+    uncovered, restored, excluded = {}, set(), set()
+    for e in sorted(body_esc, key=lambda e: (e.exc, e.rel, e.qual, e.text)):
+        hit = next((h for h, names in hs if any(mr.h.isa(e.exc, n) for n in names)), None)
+        if hit is not None:
+            ok, diff = tx["restores_fn"](e.exc)
+            if ok:
+                restored.add(e.exc)
+                continue
+            why = f"the handler of {cm_fn._qual} that catches it does not restore the options ({diff})"
+        else:
+            why = f"no handler of {cm_fn._qual} catches it"
+        from_check = e.rel == TC and e.qual == checker._qual
+        if from_check and tx["prevalidated"]:
+            excluded.add(e.exc)
+            continue
+        if from_check:
+            why += f"; not excluded by pre-validation either ({tx['prevalidated_why']})"
+        uncovered.setdefault(e.exc, (e, why))
+    for typ, (e, why) in sorted(uncovered.items()):
+        ctx.fail("R44.1", where, f"{typ} inside the rollback block is not rolled back",
+                 f"{typ} raised at {e.site()} ({e.why}): {why}; options assigned earlier in the same update stay applied and nobody is notified; "
+                 "call chain: " + " -> ".join(mr.chain(key, e)), chain=mr.chain(key, e))
+    if not uncovered:
+        ctx.ok("R44.1", f"escape set of the block guarded by {cm_fn._qual} {types}: restored by the context manager {sorted(restored)}"
+               + (f"; {sorted(excluded)} of {CHECKER} excluded by pre-validation: {tx['prevalidated_why']}" if excluded else ""))
+    ctx.sample({"rule": "R44.1", "guarded_block_in": holder._qual, "context_manager": cm_fn._qual, "escape_set": types, "restored": sorted(restored),
+                "excluded_by_prevalidation": sorted(excluded), "prevalidation": tx["prevalidated_why"], "option_setter": tx["setter"]})
 
 
 # (option name, type label, default, current value): one representative per supported type x value class
@@ -265,31 +993,87 @@ _OPTIONS = [
 ]
 
 
-def _same(a, b):
-    """type-identical equality (False != 0, [] != (), None only equals None)."""
-    if type(a) is not type(b):
-        return False
-    if isinstance(a, (list, tuple)):
-        return len(a) == len(b) and all(_same(x, y) for x, y in zip(a, b))
-    return a == b
-
-
 class _Dumper:
     """recording stand-in for ruamel.yaml.YAML (library trusted): remembers every document handed to dump()."""
 
     docs: list = []
+    files: list = []
 
     def __init__(self, *a, **kw):
         pass
 
     def dump(self, data, *a, **kw):
         _Dumper.docs.append(data)
+        _Dumper.files.append(a[0] if a else kw.get("stream"))
+
+
+class _FakeFile:
+    """an open text file of the model file system"""
+
+    def __init__(self, path, mode, text):
+        self.path, self.mode, self.text = path, mode, text
+
+    def read(self, *a):
+        return self.text
+
+    def write(self, s):
+        return len(s)
+
+    def close(self):
+        pass
+
+    def __enter__(self):
+        return self
+
+    def __exit__(self, *a):
+        return False
+
+
+class _FakePath:
+    """model of pathlib.Path over a one-file file system (``fs``: {'exists': bool, 'text': str, 'opened': [...]})"""
+
+    fs: dict = {}
+
+    def __init__(self, p, *more):
+        self.p = str(p)
+
+    def expanduser(self):
+        return self
+
+    absolute = resolve = expanduser
+
+    def exists(self):
+        return _FakePath.fs["exists"]
+
+    is_file = exists
+
+    def open(self, mode="r", *a, **kw):
+        f = _FakeFile(self.p, mode, _FakePath.fs["text"] if "r" in mode else "")
+        _FakePath.fs["opened"].append(f)
+        return f
+
+    def read_text(self, *a, **kw):
+        return _FakePath.fs["text"]
+
+    def __fspath__(self):
+        return self.p
+
+    def __str__(self):
+        return self.p
+
+    def __eq__(self, other):
+        return isinstance(other, _FakePath) and other.p == self.p
+
+    def __hash__(self):
+        return hash(self.p)
+
+
+def _fake_open(path, mode="r", *a, **kw):
+    return _FakePath(path).open(mode)
 
 
 def _config_path(ctx):
-    import copy as _copy
     import pathlib as _pathlib
-    import types as _types
 
     m = ctx.model
     ser, load = ctx.func(OM, "serialize"), ctx.func(OM, "load")
@@ -300,7 +1084,7 @@ def _config_path(ctx):
     changed = {n for n in current if not _same(current[n], default[n])}
 
     def interp(parsed):
-        it = Interp(m, trusted_modules={"pathlib": _pathlib, "ruamel": ruamel, "copy": _copy})
+        it = OptInterp(m, trusted_modules={"pathlib": _pathlib, "ruamel": ruamel, "copy": _copy})
         it.overrides[(OM, "parse")] = lambda text: _copy.deepcopy(parsed)
         it.overrides[(OM, "relative_path")] = lambda p, relative_to=None, **kw: _pathlib.PurePosixPath("/rebased") / str(p)
         return it
@@ -347,6 +1131,50 @@ def _config_path(ctx):
     ctx.check(not key_errors, "R44.3", (OM, "serialize", ser), "serialize writes an option iff `defaults` or it has changed", "the set of serialised options is no longer {changed} / {all}: " + " | ".join(key_errors),
               desc="serialize: exactly the changed options (all with defaults) are written; entries of the previous file for known options are kept")
     ctx.check(not alien_all, "R44.3", (OM, "serialize", ser), "serialize drops keys that are not options", f"unknown keys of an old file survive serialisation: {alien_all}", desc="serialize: unknown keys of the previous file dropped")
+
+    # ---- save: forwards `defaults` and the previous text to serialize, writes to the path it was given
+    save = ctx.func(OM, "save")
+    PREVIOUS_TEXT = "<previous text>"
+    save_errors = []
+    for exists in (True, False):
+        for defaults in (False, True, None):
+            opts = DictRec("OptManager", items={n: n for n in current}, _name="opts",
+                           keys=lambda: set(current), has_changed=lambda k: k in changed, default=lambda k: _copy.deepcopy(default[k]),
+                           _options={n: n for n in current}, **{n: _copy.deepcopy(v) for n, v in current.items()})
+            _Dumper.docs, _Dumper.files = [], []
+            _FakePath.fs = {"exists": exists, "text": PREVIOUS_TEXT, "opened": []}
+            ospath = _types.SimpleNamespace(exists=lambda p: _FakePath.fs["exists"], isfile=lambda p: _FakePath.fs["exists"], expanduser=lambda p: p, abspath=lambda p: p)
+            it = OptInterp(m, trusted_modules={"pathlib": _types.SimpleNamespace(Path=_FakePath, PurePath=_FakePath), "ruamel": ruamel, "copy": _copy,
+                                               "os": _types.SimpleNamespace(path=ospath, fspath=str)})
+            it.extra_builtins["open"] = _fake_open
+
+            def parse_stub(text):
+                if text == PREVIOUS_TEXT:
+                    return _copy.deepcopy(previous)
+                if not text:
+                    return {}
+                raise AnalysisError(f"R44.3: save hands serialize a text that is neither the file's content nor empty: {text!r}")
+
+            it.overrides[(OM, "parse")] = parse_stub
+            args = ["<cfg>"] + ([] if defaults is None else [defaults])
+            run(it, "save", opts, *args)
+            ctx.cells += len(current)
+            tag = f"save(defaults={'<omitted>' if defaults is None else defaults}, file {'exists' if exists else 'missing'})"
+            if len(_Dumper.docs) != 1 or not isinstance(_Dumper.docs[0], dict):
+                save_errors.append(f"{tag}: {len(_Dumper.docs)} documents dumped")
+                continue
+            doc, f = _Dumper.docs[0], _Dumper.files[0]
+            want = set(current) if defaults else changed
+            allowed = want | ((set(previous) & set(current)) if exists else set())
+            missing, extra = sorted(want - set(doc)), sorted(k for k in doc if k not in allowed)
+            if missing:
+                save_errors.append(f"{tag}: not written {missing}")
+            if extra:
+                save_errors.append(f"{tag}: written although {'unchanged / unknown' if not defaults else 'unknown'} {extra}")
+            if not (isinstance(f, _FakeFile) and "w" in f.mode and f.path == "<cfg>"):
+                save_errors.append(f"{tag}: the document is not written to the file opened for writing at the given path")
+    ctx.check(not save_errors, "R44.3", (OM, "save", save), "save forwards `defaults` to serialize", "save does not write what serialize(opts, file, previous text, defaults) writes: " + " | ".join(save_errors),
+              desc="save -> serialize(file opened for writing, previous text, defaults): all options with defaults, the changed ones without (existing file / no file)")
 
     # ---- (b) load
     parsed = {n: _copy.deepcopy(current[n]) for n in current}
@@ -395,10 +1223,16 @@ MUTANTS = [
     Mutant("prevalidation-of-other-values", OM, PRE, "            for k, v in kwargs.items():\n                typecheck.check_option_type(k, v, self._options[k].typespec)\n", "R44.1"),
     Mutant("prevalidation-against-default-type", OM, PRE, "            for k, v in known.items():\n                typecheck.check_option_type(k, v, type(self._options[k].default))\n", "R44.1"),
     Mutant("prevalidation-swallows-failure", OM, PRE, "            for k, v in known.items():\n                try:\n                    typecheck.check_option_type(k, v, self._options[k].typespec)\n                except TypeError:\n                    continue\n", "R44.1"),
+    Mutant("prevalidation-skips-bool-options", OM, PRE, "            for k, v in known.items():\n                if self._options[k].typespec is not bool:\n                    typecheck.check_option_type(k, v, self._options[k].typespec)\n", "R44.1"),
     Mutant("rollback-handler-does-not-restore", OM, "            self.__dict__[\"_options\"] = old\n            self.changed.send(updated=updated)\n", "            self.changed.send(updated=updated)\n", "R44.1"),
     Mutant("set-raises-valueerror-for-choices", OM, "        typecheck.check_option_type(self.name, value, self.typespec)\n        self.value = value\n",
            "        typecheck.check_option_type(self.name, value, self.typespec)\n        if self.choices and value not in self.choices:\n            raise ValueError(f\"invalid choice for {self.name}\")\n        self.value = value\n", "R44.1"),
     # R44.2
+    Mutant("rollback-snapshots-updated-options-only", OM,  # seed C44a: what an earlier listener assigned in a nested update is not undone
+           "        old = copy.deepcopy(self._options)\n        try:\n            yield\n        except exceptions.OptionsError as e:\n            # Notify error handlers\n            self.errored.send(exc=e)\n            # Rollback\n            self.__dict__[\"_options\"] = old\n",
+           "        old = {k: copy.deepcopy(self._options[k]) for k in updated if k in self._options}\n        try:\n            yield\n        except exceptions.OptionsError as e:\n            # Notify error handlers\n            self.errored.send(exc=e)\n            # Rollback\n            self._options.update(old)\n", "R44.2"),
+    Mutant("update-known-notifies-with-unknown-names", OM, "                self.changed.send(updated=updated)\n        return unknown", "                self.changed.send(updated=set(kwargs))\n        return unknown", "R44.2"),
+    Mutant("update-known-forgets-unknown-keys", OM, "        return unknown\n\n    def update_defer", "        return {}\n\n    def update_defer", "R44.2"),
     Mutant("rollback-takes-shallow-copy", OM, "        old = copy.deepcopy(self._options)\n        try:\n            yield\n", "        old = copy.copy(self._options)\n        try:\n            yield\n", "R44.2"),
     Mutant("rollback-notifies-before-restoring", OM, "            self.__dict__[\"_options\"] = old\n            self.changed.send(updated=updated)\n", "            self.changed.send(updated=updated)\n            self.__dict__[\"_options\"] = old\n", "R44.2"),
     Mutant("update-known-swallows-rejection", OM, "with self.rollback(updated, reraise=True):", "with self.rollback(updated):", "R44.2"),
